@@ -81,10 +81,28 @@ Content(S) == << Cardinality({o \in S : IsTwoFold(o)}),
 (* matrix G of every cell.  Oblique cells (G arbitrary) admit only +-1;     *)
 (* rectangular cells (G diagonal, two free entries) admit the diagonal      *)
 (* matrices with entries +-1.                                               *)
+(* Square cells (G = a^2 I): the integer orthogonal matrices.  Hexagonal   *)
+(* cells with a 60 degree angle (G proportional to [[2,1],[1,2]]):          *)
+(* W^T G W = G written out.                                                 *)
 FamilyInvariant(o, fam) ==
-  IF fam = "Monoclinic"
-  THEN (o[1] = o[4]) /\ o[1] \in {1, -1} /\ o[2] = 0 /\ o[3] = 0
-  ELSE o[1] \in {1, -1} /\ o[4] \in {1, -1} /\ o[2] = 0 /\ o[3] = 0
+  CASE fam = "Monoclinic" -> (o[1] = o[4]) /\ o[1] \in {1, -1} /\ o[2] = 0 /\ o[3] = 0
+    [] fam = "Orthorhombic" -> o[1] \in {1, -1} /\ o[4] \in {1, -1} /\ o[2] = 0 /\ o[3] = 0
+    [] fam = "Tetragonal" -> /\ o[1] * o[1] + o[3] * o[3] = 1 /\ o[2] * o[2] + o[4] * o[4] = 1
+                             /\ o[1] * o[2] + o[3] * o[4] = 0
+    [] fam = "Hexagonal" -> /\ 2 * o[1] * o[1] + 2 * o[1] * o[3] + 2 * o[3] * o[3] = 2
+                            /\ 2 * o[2] * o[2] + 2 * o[2] * o[4] + 2 * o[4] * o[4] = 2
+                            /\ 2 * o[1] * o[2] + o[1] * o[4] + o[3] * o[2] + 2 * o[3] * o[4] = 1
+    [] OTHER -> FALSE
+
+(* A table offered under a name this module has no reference for (a group  *)
+(* added to the library later): the group axioms and the family pairing,   *)
+(* without a reference table to compare with.                               *)
+IsSomeGroupTable(S, fam) ==
+  /\ Norm(Id) \in NormSet(S)
+  /\ \A a, b \in S : Norm(Compose(a, b)) \in NormSet(S)
+  /\ \A a \in S : \E b \in S : Norm(Compose(a, b)) = Norm(Id)
+  /\ Cardinality(NormSet(S)) = Cardinality(S)
+  /\ \A a \in S : FamilyInvariant(a, fam)
 
 (* The axioms of C16 for a set S of operations claimed to be group g.       *)
 IsGroupTable(S, g, fam) ==
